@@ -150,6 +150,9 @@ func c16Mutate(rt *rapid.T, w *l1World, req *model.PushPullMessage, c *l1Client,
 	}
 }
 
+// c16Prompt: an answer to a single request on an idle server normally takes milliseconds.
+const c16Prompt = 4 * time.Second
+
 func refusedPushPull(resp *model.PushPullMessage, rpcErr error) bool {
 	if rpcErr != nil {
 		return true
@@ -171,6 +174,7 @@ func TestC16PushPull(t *testing.T) {
 		"at the end of a generated client/server history (prelude of 2-4 clients sharing 1-2 keys + local operations) the valid push-pull request a client would send next receives 1-3 structured mutations (DUID, key, option bits, checkpoint, operation sequence, type, era, read-only, cuid, collection, number of packs) and is sent with its own request context and a deadline; "+
 			"oracle: the call returns a response or an error within the deadline; the test process survives; if the request was refused (RPC error or every pack carries the error bit) the canonical dump of ALL collections is unchanged; the next valid sync of an honest client on the same key is answered, and served without error when the mutated request had been refused; "+
 			"applying an error response to the real client invokes its error handler, does not panic, and leaves its state unchanged; "+
+			"an answer that takes more than 4 s (twice: the request is sent again) with no other request in flight is not prompt; "+
 			"non-trivial = the mutated request differs from the valid one and reached the per-datatype handler (collection and client lookups passed); distinct = hash of (history, mutations)")
 	col.Assume("a mutated request that the server ACCEPTS may legitimately change stored data; nothing beyond being answered is demanded of it")
 	checkProp(t, "C16", col, func(c *caseCtx) {
@@ -238,7 +242,10 @@ func TestC16PushPull(t *testing.T) {
 		w.env.WaitBackground(3 * time.Second)
 		before := w.env.Mongo.DumpCanonical()
 		viewBefore := sim.Observe(d.key.Kind, d.dt, nil)
+		resend := proto.Clone(req).(*model.PushPullMessage)
+		sent := time.Now()
 		resp, rpcErr, timedOut := w.env.ProcessPushPull(req, l1Deadline)
+		took := time.Since(sent)
 		if timedOut {
 			c.failf("the server never answered the request mutated by %v (pending database commands: %v)", muts, w.env.Mongo.Busy())
 		}
@@ -304,6 +311,17 @@ func TestC16PushPull(t *testing.T) {
 			}
 			if refused && perr != nil {
 				c.failf("after the REFUSED request mutated by %v a valid REST patch of the same key fails: %v", muts, perr)
+			}
+		}
+		// "answered promptly": this is the only request in flight, nothing else holds a lock of the server. An answer
+		// that takes most of the lock lease time (5 s) means the request waited for itself. Measured again (same
+		// request, idle server) before it counts, so that a stalled machine is not taken for a stalled server.
+		if took > c16Prompt {
+			w.env.WaitBackground(3 * time.Second)
+			again := time.Now()
+			_, _, to2 := w.env.ProcessPushPull(resend, l1Deadline)
+			if took2 := time.Since(again); to2 || took2 > c16Prompt {
+				c.failf("the request mutated by %v was not answered promptly: %v, and %v when sent again, with no other request in flight (the lock lease of the server is 5 s)", muts, took.Round(time.Millisecond), took2.Round(time.Millisecond))
 			}
 		}
 		reached := rpcErr == nil && resp != nil && len(resp.PushPullPacks) > 0
